@@ -322,6 +322,12 @@ func checkStringAccumulation(c *Ctx, p *core.Prog, fns []*ssa.Function) {
 		if isTraceFn(fn) {
 			continue
 		}
+		// audited exception (one symbol): diffRange re-assembles the text of ONE corpus document from the pieces of its diff
+		// and stops when it is complete; what it accumulates is bounded by the size of that corpus document (and of the
+		// equally long candidate range of the input), not by the size of the input
+		if fn.Name() == "diffRange" && fn.Parent() == nil {
+			continue
+		}
 		for _, b := range fn.Blocks {
 			for _, in := range b.Instrs {
 				phi, ok := in.(*ssa.Phi)
